@@ -124,6 +124,21 @@ def h_js_cash_flow(ctx):
     ctx.cover('js.cashflow')
 
 
+def structural(tier, res):
+    """call sites in the report script: every classification of ONE transaction (categorizeAmount(txn.amount ..., <tags>)) is made on that transaction's own
+    tags - `txn.tags`, falling back to the merchant's only when the transaction carries none - as analyze_transactions does on the command line.  Read off
+    the script text (the call sites sit in Vue computed properties outside the classification block that pyvc.jsfront parses)."""
+    import re
+    from pyvc import frames
+    text = open(os.path.join(extract.REPO, JS_FILE), encoding='utf-8').read()
+    calls = re.findall(r'categorizeAmount\(\s*txn\.amount[^,]*,\s*([^)]*)\)', text)
+    bad = [c for c in calls if not c.strip().startswith('txn.tags')]
+    ok = bool(calls) and not bad
+    return [frames.Clause(JS_FILE + '#transactions_are_classified_on_their_own_tags', ok,
+                          '%d per-transaction call(s) of categorizeAmount, all on txn.tags' % len(calls) if ok else
+                          ('per-transaction categorizeAmount call(s) on other tags: %s' % bad if calls else 'no per-transaction call of categorizeAmount found'), kind='auxiliary')]
+
+
 def harnesses(tier):
     C = C06.C
     return [
